@@ -249,7 +249,8 @@ def calls_for(tpl, rnd):
         pool += [["read_setting", "eco_mode_1"], ["read_setting", "eco_mode_1"], ["read_setting", "eco_mode_3"],
                  ["set_operation_mode", {"mode": "ECO_CHARGE"}, rnd.randrange(1, 101), rnd.randrange(0, 101)],
                  ["set_operation_mode", {"mode": "ECO_DISCHARGE"}, rnd.randrange(1, 101)], ["write_setting", "eco_mode_2_switch", rnd.choice((0, -1))],
-                 ["get_operation_mode"], ["read_settings_data"], ["get_grid_export_limit"], ["set_grid_export_limit", rnd.randrange(0, 10000)]]
+                 ["get_operation_mode"], ["read_settings_data"], ["get_grid_export_limit"], ["set_grid_export_limit", rnd.randrange(0, 10000)],
+                 ["read_setting", rnd.choice(("capacity", "charge_i", "discharge_v", "charge_v", "work_mode", "grid_export_limit"))]]
     return [rnd.choice(pool) for _ in range(rnd.randrange(1, 5))]
 
 
@@ -401,6 +402,13 @@ def directed_scenarios(seed):
             out.append({"seed": f"{seed}:same:{a}:{b}:{len(out)}", "n_random_merges": 0, "n_concurrent": 1,
                         "objects": [{"template": a, "port": 8899, "seed": f"{seed}:sA{len(out)}", "calls": ca},
                                     {"template": b, "port": 8899, "seed": f"{seed}:sB{len(out)}", "calls": cb}]})
+    # settings that live in a block the family reads as a whole (ES settings block, ET / DT single registers): read one after the other on two
+    # objects in quick succession - each object reports what ITS inverter holds
+    es_block = [["read_setting", x] for x in ("capacity", "charge_i", "discharge_v", "work_mode", "capacity")]
+    for a, b in (("ESv1", "ESv1"), ("ESv2", "ESv1"), ("ESe", "ESs")):
+        out.append({"seed": f"{seed}:blk:{a}:{b}:{len(out)}", "n_random_merges": 2, "n_concurrent": 1,
+                    "objects": [{"template": a, "port": 8899, "seed": f"{seed}:kA{len(out)}", "calls": es_block},
+                                {"template": b, "port": 8899, "seed": f"{seed}:kB{len(out)}", "calls": es_block[1:]}]})
     for a, b in (("ET745", "ET205u"), ("ESv2", "ET205u"), ("ET205u", "ET745"), ("ET745", "ET205g"), ("ET745", "ET205"), ("ET205", "ET745"), ("ESv2", "ESv2g"), ("ET745", "ETv1"), ("ESv2", "ET205g"),
                  ("ET205g", "ET745"), ("ESv1", "ESv1"), ("ET205", "ET205")):
         for ca in ([ec], [["read_setting", "eco_mode_1"]], [["read_setting", "eco_mode_1"], ec]):
